@@ -153,10 +153,14 @@ type heldKey struct {
 	topic  int
 }
 
-type heldIv struct {
-	sender   uint16
-	topic    int
-	from, to time.Duration
+type occupancy struct{ froms, tos []int }
+
+func insertSorted(a []int, x int) []int {
+	i := sort.Search(len(a), func(i int) bool { return a[i] > x })
+	a = append(a, 0)
+	copy(a[i+1:], a[i:])
+	a[i] = x
+	return a
 }
 
 func keysOf(m map[int]bool) []int {
@@ -178,6 +182,7 @@ type c15Msg struct {
 	at      time.Duration
 	verdict string // must | mustnot | either (w.r.t. the limits at arrival)
 	era     int
+	atOp    int // index of the operation that delivered it
 }
 
 // c15Era is a stretch of a topic's history in which its buffered data was surely never collected in between.
@@ -246,8 +251,8 @@ func runC15(t *testing.T, spec RunSpec) *RunResult {
 			ForwardSend:    func(uint8, []byte, []byte, ...tss.UniversalID) {},
 			MessageHandler: h}
 		topics := map[int]*c15Topic{}
-		held := map[heldKey][2]time.Duration{} // (sender, topic) -> [arrival of the oldest released message, release] of the send being judged
-		var allHeld []heldIv                   // the same for all sends so far
+		held := map[heldKey][2]int{}   // (sender, topic) -> [operation that delivered the oldest released message, this send operation)
+		occ := map[uint16]*occupancy{} // per sender: beginnings and ends of all such intervals so far, sorted
 		var sendTimes []time.Duration
 		viol := func(class, detail string) {
 			if len(res.Violations) == 0 {
@@ -336,7 +341,7 @@ func runC15(t *testing.T, spec RunSpec) *RunResult {
 				}
 				for b := 0; b < op.Burst; b++ {
 					seq++
-					m := &c15Msg{id: fmt.Sprintf("%d/%d/%d", op.Topic, op.Sender, seq), sender: op.Sender, at: now()}
+					m := &c15Msg{id: fmt.Sprintf("%d/%d/%d", op.Topic, op.Sender, seq), sender: op.Sender, at: now(), atOp: oi}
 					before := len(h.log)
 					if tp.started {
 						// forwarded immediately while the topic is fresh; once its bookkeeping may have expired either is fine
@@ -453,8 +458,8 @@ func runC15(t *testing.T, spec RunSpec) *RunResult {
 							res.Probes["released"]++
 							// the message was in the buffer from its arrival until now
 							k := heldKey{m.sender, op.Topic}
-							if iv, ok := held[k]; !ok || m.at < iv[0] {
-								held[k] = [2]time.Duration{m.at, x}
+							if iv, ok := held[k]; !ok || m.atOp < iv[0] {
+								held[k] = [2]int{m.atOp, oi}
 							}
 						} else {
 							res.Probes["not-released"]++
@@ -476,25 +481,24 @@ func runC15(t *testing.T, spec RunSpec) *RunResult {
 				tp.eras = nil
 				// the number of topics a sender has data buffered for at any one time stays within the limit, give or
 				// take one: what is released was in the buffer from its arrival until its release
-				touched := map[uint16]bool{}
 				for k, iv := range held {
-					allHeld = append(allHeld, heldIv{k.sender, k.topic, iv[0], iv[1]})
-					touched[k.sender] = true
 					delete(held, k)
-				}
-				for snd := range touched {
-					for _, p := range allHeld {
-						if p.sender != snd {
-							continue
-						}
-						together := map[int]bool{}
-						for _, q := range allHeld {
-							if q.sender == snd && q.from <= p.from && p.from < q.to {
-								together[q.topic] = true
-							}
-						}
-						if len(together) > cfg.MaxTopics+1 && len(res.Violations) == 0 {
-							viol("topic-limit-exceeded", fmt.Sprintf("sender %d had data buffered for %d topics at the same time (at %v; every one of them was released later), the limit is %d (give or take one): topics %v", snd, len(together), p.from, cfg.MaxTopics, keysOf(together)))
+					// intervals of one topic never overlap (its data is released wholesale), so the number of topics a
+					// sender occupies at instant t is #(from <= t) - #(to <= t) over the sender's intervals; it can only
+					// have grown at the beginning of an interval that lies inside the new one
+					sv := occ[k.sender]
+					if sv == nil {
+						sv = &occupancy{}
+						occ[k.sender] = sv
+					}
+					sv.froms = insertSorted(sv.froms, iv[0])
+					sv.tos = insertSorted(sv.tos, iv[1])
+					lo := sort.Search(len(sv.froms), func(i int) bool { return sv.froms[i] >= iv[0] })
+					for i := lo; i < len(sv.froms) && sv.froms[i] < iv[1]; i++ {
+						t := sv.froms[i]
+						n := sort.Search(len(sv.froms), func(i int) bool { return sv.froms[i] > t }) - sort.Search(len(sv.tos), func(i int) bool { return sv.tos[i] > t })
+						if n > cfg.MaxTopics+1 && len(res.Violations) == 0 {
+							viol("topic-limit-exceeded", fmt.Sprintf("sender %d had data buffered for %d topics at the same time (after operation %d; every one of them was released later, the last one now, on topic %d), the limit is %d (give or take one)", k.sender, n, t, k.topic, cfg.MaxTopics))
 						}
 					}
 				}
